@@ -64,12 +64,23 @@ class Ctx:
         if not fl:
             self.inst(rule, "missing:" + path, False, None, "anchor definition %s not found in crate %s (renamed or removed): the rule cannot be evaluated" % (path, crate), nontrivial=False)
             raise AnchorMissing(path)
-        return fl[0]
+        return self._prepared(c, fl[0])
 
     def fn_opt(self, crate, path):
         c = self.facts.lib(crate)
         fl = c.fns.get(path)
-        return fl[0] if fl else None
+        return self._prepared(c, fl[0]) if fl else None
+
+    def _prepared(self, c, f):
+        """the function with new private single-caller helpers inlined and trivial re-bindings registered as aliases"""
+        cache = self.__dict__.setdefault("_prep", {})
+        key = (c.name, f["path"])
+        if key not in cache:
+            from . import norm
+            cache[key] = norm.prepare(f, c)
+            if cache[key].get("inlined"):
+                self.extra.setdefault("inlined_helpers_in", []).append(f["path"])
+        return cache[key]
 
 
 def load_known():
